@@ -66,7 +66,10 @@ DTerm(mode, n, b, seed) ==
     [] mode = "bconst" -> Op_Diag(T_Expand(T_Fill(b \o <<1>>, seed + 17, 1, 3), b \o <<n>>))     \* constant per member, DiagLinearOperator class
 
 Init ==
-  /\ \E i \in 1..Len(Insts), k \in 1..6, ti \in 1..(Len(Tols) + 4), di \in 1..Len(DModes), minsz \in {0, 100}, sd \in {1, 100} :
+  /\ \E i \in 1..Len(Insts), k \in 1..6, ti \in 1..(Len(Tols) + 4), di \in 1..Len(DModes), minsz \in {0, 100}, sd \in {1, 100}, su \in {0, 1} :
+       \* "small units": K and D are handed to the library multiplied by 1e-9 (everything the property states is scale-covariant; whether a
+       \* diagonal is constant must not be decided with an absolute tolerance)
+       /\ (su = 1 => DModes[di] = "elem" /\ sd = 1 /\ minsz = 0 /\ ti = 1)
        /\ k <= Insts[i].n + 1
        \* tolerances 4.. are placed between the residual traces of steps ti-3 and ti-2 of this very instance (see Build)
        /\ (ti > Len(Tols) => ti - Len(Tols) <= Insts[i].n - 2 /\ k > ti - Len(Tols) /\ DModes[di] \in {"none", "elem"})
@@ -78,11 +81,11 @@ Init ==
        /\ (DModes[di] = "bconst" => Len(Insts[i].b) > 0)
        \* (adding a diagonal to a diagonal operator is a construction AddedDiagLinearOperator itself declares unsupported)
        /\ (DModes[di] # "none" => Insts[i].name \notin {"diag", "constdiag"})
-       /\ (Tier = "quick" => (DModes[di] = "none" \/ (i + k + ti) % 3 = 0))
+       /\ (Tier = "quick" => (DModes[di] = "none" \/ (i + k + ti) % 3 = 0 \/ (su = 1 /\ (i + k) % 2 = 0)))
        /\ desc = [inst |-> Insts[i].name, n |-> Insts[i].n, b |-> Insts[i].b, k |-> k, ti |-> ti, tol |-> IF ti <= Len(Tols) THEN Tols[ti] ELSE <<0, 1>>,
                   tolname |-> IF ti <= Len(Tols) THEN TolName[ti] ELSE "between-steps",
-                  dmode |-> DModes[di], minsize |-> minsz, seed |-> i * 7 + 1, sden |-> sd,
-                  id |-> ((((i * 8 + k) * 8 + ti) * 8 + di) * 2 + (IF minsz = 0 THEN 0 ELSE 1)) * 2 + (IF sd = 1 THEN 0 ELSE 1)]
+                  dmode |-> DModes[di], minsize |-> minsz, seed |-> i * 7 + 1, sden |-> sd, small |-> su,
+                  id |-> (((((i * 8 + k) * 8 + ti) * 8 + di) * 2 + (IF minsz = 0 THEN 0 ELSE 1)) * 2 + (IF sd = 1 THEN 0 ELSE 1)) * 2 + su]
   /\ term = <<>> /\ dense = <<>> /\ mems = <<>> /\ m = 0 /\ pc = "build" /\ stopat = -1
 
 Build ==
